@@ -107,7 +107,8 @@ def run_case(ctx, idx, rng, tier):
 
 def _run_case(ctx, idx, rng, tier):
     dev = c13_device(rng)
-    reg = gen.gen_register(rng, dev, nmin=1, nmax=4, kind=gen.wchoice(rng, {"reg": 0.8, "mappable": 0.2}))
+    reg = gen.gen_register(rng, dev, nmin=1, nmax=4, kind=gen.wchoice(rng, {"reg": 0.8, "mappable": 0.2}),
+                           ids=gen.pick(rng, ["str", "str", "int"]))  # default integer ids (0, 1, ...) in a third of the cases
     r = prog.Runner(ctx, dev, reg, [], env=objs.Env("param"))  # variable expressions resolve to declared Variables
     reusable = dev.get("reusable_channels", False) or dev.get("name") == "MockDevice"
     slm = dev.get("supports_slm_mask", dev.get("name") in ("MockDevice", "DigitalAnalogDevice"))
